@@ -1568,6 +1568,93 @@ def phase_chain(prog, ci, sh, r, f):
     return seen
 
 
+def stale_copies(prog, ci, f):
+    """[(node, local, location, writers)]: inside a loop of the receive function a local working copy of a per-connection
+    attribute is read after a call that can reach another method of the class which writes that attribute, without
+    being refreshed from the attribute in between (added after seeded change C14-4: TwistedWrapper.process sliced a
+    local `buf` while the last handshake phase hands over and clears self.__buf; the copy still held the delivered
+    bytes, the loop ran the always-false phase on them and closed a verified connection)"""
+    raw = f
+    copies = {}
+    for n in raw.own_nodes():
+        if isinstance(n, ast.Assign):
+            locs = {loc_of(t) for t in n.targets if not isinstance(t, ast.Name) and loc_of(t)}
+            deps = {loc_of(x) for x in ast.walk(n.value) if isinstance(x, ast.Attribute) and loc_of(x)}
+            for t in n.targets:
+                if isinstance(t, ast.Name):
+                    for l in locs | deps:
+                        if l and l.startswith('self.') and '[' not in l:
+                            copies.setdefault(t.id, set()).add(l)
+    if not copies:
+        return []
+    cls = f.cls
+    meths = {m.name: m for m in ci.raw} if hasattr(ci, 'raw') else {}
+    # methods a slot attribute can hold (self.slot = self.m anywhere in the class)
+    slot_vals = {}
+    for m in meths.values():
+        for n in m.own_nodes():
+            if isinstance(n, ast.Assign) and isinstance(n.value, ast.Attribute) and isinstance(n.value.value, ast.Name) and n.value.value.id == 'self' and n.value.attr in meths:
+                for t in n.targets:
+                    l = loc_of(t)
+                    if l and l.startswith('self.'):
+                        slot_vals.setdefault(l, set()).add(n.value.attr)
+
+    def reach(names):
+        seen, todo = set(), list(names)
+        while todo:
+            x = todo.pop()
+            if x in seen or x not in meths:
+                continue
+            seen.add(x)
+            for c in meths[x].calls():
+                fn = c.func
+                if isinstance(fn, ast.Attribute) and isinstance(fn.value, ast.Name) and fn.value.id == 'self':
+                    if fn.attr in meths:
+                        todo.append(fn.attr)
+                    todo.extend(slot_vals.get('self.' + fn.attr, ()))
+        return seen
+
+    def writers_of(l):
+        out = set()
+        for m in meths.values():
+            if m.qname == f.qname or m.name == '__init__':
+                continue
+            for n in m.own_nodes():
+                tg = n.targets if isinstance(n, ast.Assign) else ([n.target] if isinstance(n, (ast.AugAssign, ast.AnnAssign)) else [])
+                if any(loc_of(t) == l for t in tg):
+                    out.add(m.name)
+        return out
+
+    found = []
+    for lp in [n for n in raw.own_nodes() if isinstance(n, (ast.While, ast.For))]:
+        body_nodes = [x for b in lp.body for x in ast.walk(b)]
+        for local, ls in sorted(copies.items()):
+            used = any(isinstance(x, ast.Name) and x.id == local and isinstance(x.ctx, ast.Load) for x in body_nodes + (list(ast.walk(lp.test)) if isinstance(lp, ast.While) else []))
+            if not used:
+                continue
+            for l in sorted(ls):
+                ws = writers_of(l)
+                if not ws:
+                    continue
+                called = set()
+                for x in body_nodes:
+                    if isinstance(x, ast.Call) and isinstance(x.func, ast.Attribute) and isinstance(x.func.value, ast.Name) and x.func.value.id == 'self':
+                        called |= reach({x.func.attr} | slot_vals.get('self.' + x.func.attr, set()))
+                hit = sorted(ws & called)
+                if not hit:
+                    continue
+                # refreshed from the attribute inside the loop?
+                fresh = any(
+                    isinstance(x, ast.Assign)
+                    and any(isinstance(t, ast.Name) and t.id == local for t in x.targets)
+                    and any(isinstance(y, ast.Attribute) and loc_of(y) == l for y in ast.walk(x.value))
+                    for x in body_nodes
+                )
+                if not fresh:
+                    found.append((lp, local, l, hit))
+    return found
+
+
 def _rule1(ctx, rep):
     prog = ctx.prog
     with rep.rule(
@@ -1585,6 +1672,15 @@ def _rule1(ctx, rep):
             rep.analysed(f)
             r.instance()
             ci, sh, fl = analyse_loop(prog, f)
+            stale = stale_copies(prog, ci, f)
+            for lp, local, l, hit in stale:
+                r.fail(
+                    f'{q}:stale-working-copy:{l}',
+                    where(f, lp),
+                    f'{q} consumes the local copy "{local}" of {l} in its loop although {", ".join(hit)} (reached from a call inside the loop) writes {l}: after such a call the copy is stale and the loop goes on with bytes that were already handed over or dropped',
+                )
+            if stale:
+                continue
             if fl is None:
                 for clause, node, msg in sh.errors:
                     r.fail(f'{q}:{clause}', where(f, node), msg)
@@ -2406,6 +2502,7 @@ _F, _C, _L, _S = 'pl/farm.py', 'db/shelve/comms.py', 'pl/logger/__init__.py', 's
 _W_LEN = "length = ( self.__buf['actual'] if self.__buf['expected'] is None else self.__buf['expected'] )"
 
 VARIANTS = [
+    V('handshake loop slices a local copy of the buffer', 'B', 'security.py', 'TwistedWrapper.process', 'self.__buf += data\n\n        while self.__len <= len(self.__buf):\n            data = self.__buf[: self.__len]\n            self.__buf = self.__buf[self.__len :]', 'buf = self.__buf = self.__buf + data\n\n        while self.__len <= len(buf):\n            data, buf = buf[: self.__len], buf[self.__len :]\n            self.__buf = buf', 'R-C14-1'),
     # ---- R-C14-1
     V('farm: < for <=', 'B', _F, 'Hand.dataReceived', 'while length <= len(self.__buf):', 'while length < len(self.__buf):', 'R-C14-1'),
     V('log: body removes length+1', 'B', _L, 'LogSink.dataReceived', 'self.__buf = self.__buf[length:]', 'self.__buf = self.__buf[length + 1:]', 'R-C14-1', occurrence=1),
